@@ -17,7 +17,7 @@ SPECS = ["InstanceMC", "InstanceTrace"]
 PKGS = ["./cmd/instance"]
 
 # deviation -> witness classes the model must exhibit with it (sequential configuration)
-DEV_SEQ = {"AliasDefaults": {"cache"}, "CollideEither": {"nondeterministic"}, "StripInPlace": {"argument"},
+DEV_SEQ = {"AliasDefaults": {"cache", "history"}, "CollideEither": {"nondeterministic"}, "StripInPlace": {"argument"},
            "StripRestore": {"argument"}, "DirtyScratch": {"history"}, "EnumEarlyReturn": {"nondeterministic"}}
 
 
@@ -67,7 +67,8 @@ def run(ctx):
     tm = threading.Thread(target=do_main)
     tm.start()
     # the named deviations on the model first: TLC must exhibit each defect; the witnesses become targeted histories
-    wit = ic.deviations(ctx, "instance_dev_seq.cfg", DEV_SEQ)
+    wit = ic.deviations(ctx, "instance_dev_seq.cfg", DEV_SEQ,
+                        must_violate={"AliasDefaults": ("instance_devv_hist.cfg", "HistoryFree")})
     tm.join()
     if "err" in main:
         raise main["err"]
